@@ -244,3 +244,86 @@ theorem Good.suffix {data : Array UInt8} {t : TA} {p : Nat} {hist : List UInt8} 
   rw [← hF]; exact run_suffix data F t p hist
 
 end Op2.Lzh
+
+namespace Op2.Lzh
+open Op2 Op2.Huff Op2.Lzh.Spec
+
+theorem readBit_le (data : Array UInt8) (p : Nat) : (readBit data p).1 ≤ 1 := by
+  unfold readBit; split
+  · exact Nat.zero_le _
+  · exact bitAt_le data p
+
+/-- on a well-formed tree the walk from any node never meets a refused query, ends on a leaf and yields a symbol -/
+theorem nextCode_ok {t : TA} (k : TreeOk t) (data : Array UInt8) : ∀ fuel node p, node < t.n → node < fuel →
+    ∃ code p1, nextCode t data fuel node p = .ok (code, p1) ∧ code < t.T := by
+  intro fuel
+  induction fuel with
+  | zero => intro node p _ h; omega
+  | succ f ih =>
+    intro node p hn hf
+    have hnot : ¬ (node ≥ t.n) := by omega
+    have rng := k.wf.st.rng node hn
+    have hl : t.view.link node = t.link.getD node 0 := rfl
+    have hvn : t.view.n = t.n := rfl
+    have hvT : t.view.T = t.T := rfl
+    simp only [nextCode, TA.isLeaf, TA.nodeData, TA.child, if_neg hnot]
+    by_cases hleaf : t.link.getD node 0 ≥ t.n
+    · rw [decide_eq_true hleaf]
+      refine ⟨_, _, rfl, ?_⟩
+      rcases rng with h | h
+      · omega
+      · omega
+    · rw [decide_eq_false hleaf]
+      have hb := readBit_le data p
+      rcases rng with h | h
+      · exact ih _ _ (by omega) (by omega)
+      · omega
+
+/-- what `decodeSym` is on a well-formed tree: the walk yields a symbol, and the only refusal is the full counter -/
+theorem decodeSym_eq {t : TA} (k : TreeOk t) (data : Array UInt8) (p : Nat) :
+    ∃ code p1, code < t.T ∧ decodeSym data t p =
+      (if t.cnt.getD t.root 0 ≥ TF.maxCount then Sym.full p1
+       else if code < 256 then Sym.lit (t.update code) p1 code
+       else Sym.mat (t.update code) (repeatOffset data p1).2 (repeatOffset data p1).1 (code - matchBase)) := by
+  have hT := k.wf.st.hT
+  have hn : t.root < t.n := by unfold TA.root; have : t.n = 2 * t.view.T - 1 := rfl; omega
+  obtain ⟨code, p1, h, hc⟩ := nextCode_ok k data t.n t.root p hn hn
+  refine ⟨code, p1, hc, ?_⟩
+  unfold decodeSym
+  rw [h]
+  simp only [TA.updateChecked, if_neg (show ¬ (code ≥ t.T) by omega)]
+  by_cases hfull : t.cnt.getD t.root 0 ≥ TF.maxCount
+  · rw [if_pos hfull, if_pos hfull]
+  · rw [if_neg hfull, if_neg hfull]
+
+/-- so on a well-formed tree the only way a code can fail is the tree's refusal of the update -/
+theorem decodeSym_not_badQuery {t : TA} (k : TreeOk t) (data : Array UInt8) (p : Nat) : decodeSym data t p ≠ .badQuery := by
+  obtain ⟨code, p1, _, h⟩ := decodeSym_eq k data p
+  rw [h]
+  split
+  · simp
+  · split <;> simp
+
+/-- **a code is refused exactly when the tree's root counter is full** (65535 = 314 symbols + 65221 updates) -/
+theorem step_cap_iff_full {t : TA} (k : TreeOk t) (data : Array UInt8) (p : Nat) (hist : List UInt8) :
+    Spec.step data t p hist = .cap ↔ t.cnt.getD t.root 0 ≥ TF.maxCount := by
+  obtain ⟨code, p1, _, h⟩ := decodeSym_eq k data p
+  unfold Spec.step
+  rw [h]
+  by_cases hfull : t.cnt.getD t.root 0 ≥ TF.maxCount
+  · rw [if_pos hfull]
+    exact ⟨fun _ => hfull, fun _ => rfl⟩
+  · rw [if_neg hfull]
+    by_cases hl : code < 256
+    · rw [if_pos hl]
+      simp only []
+      constructor
+      · intro h2; split at h2 <;> simp at h2
+      · intro h2; exact absurd h2 hfull
+    · rw [if_neg hl]
+      simp only []
+      constructor
+      · intro h2; split at h2 <;> simp at h2
+      · intro h2; exact absurd h2 hfull
+
+end Op2.Lzh
